@@ -438,7 +438,19 @@ def run(repo: Repo, chk: Check, thorough: bool = False) -> None:
             n_clock += 1
             ok, why = _clock_use(repo, f, c)
             chk.ob('R18.3', f'{f.qn} :: {norm(c)}', ok, why, repo.loc(f.mod, c))
-    chk.require('R18.3', 3)
+    # docutils has a clock of its own: the `date` directive (usually `.. |today| date::`) formats the wall-clock time, and it ignores
+    # SOURCE_DATE_EPOCH.  The reST parser must replace it (or hand it System.buildtime)
+    rmod = repo.mod('pydoctor.epydoc.markup.restructuredtext')
+    regs = {a.value for n in ast.walk(rmod.tree) if isinstance(n, ast.Call) and call_name(n) == 'register_directive' and n.args
+            for a in n.args[:1] if isinstance(a, ast.Constant) and isinstance(a.value, str)}
+    chk.stats['rst_directives_registered'] = sorted(regs)
+    if len(regs) < 3:
+        raise AnalysisError(f'R18.3: only {len(regs)} register_directive() calls found in the reST parser module')
+    chk.ob('R18.3', 'epydoc.markup.restructuredtext :: the docutils `date` directive does not read the wall clock', 'date' in regs,
+           'replaced by a directive registered by pydoctor' if 'date' in regs else
+           'docutils\' own `date` directive stays active: a docstring with `.. |generated| date:: %H:%M:%S` puts the current time into the page and the '
+           'search index; --buildtime / SOURCE_DATE_EPOCH do not reach it, two otherwise identical runs differ', rmod.relpath)
+    chk.require('R18.3', 4)
     # buildtime is overridden before any page is built
     gs = repo.func('pydoctor.driver.get_system')
     writes = [n for n in gs.walk() if isinstance(n, ast.Assign) and any(isinstance(t, ast.Attribute) and t.attr == 'buildtime' for t in n.targets)]
